@@ -163,6 +163,24 @@ func runProperty(p *Prog, id, tier string, cfg SolverCfg, verifDir string) int {
 			notes["outside subset ("+vc.funcName()+"): "+n] = true
 		}
 	}
+	// lemmas tagged with the property; axioms (assumed) are listed
+	for _, ax := range p.cs.Axioms {
+		if !hasProp(ax.Props, id) {
+			continue
+		}
+		if !ax.Lemma {
+			trusted["axiom "+ax.Name+": "+ax.Src] = true
+			continue
+		}
+		vc := VerifyLemma(p, ax)
+		vcs = append(vcs, vc)
+		for _, e := range vc.specErrors {
+			viols = append(viols, violation{Obligation: "lemma." + ax.Name, Func: "lemma." + ax.Name, Class: "detached", Desc: "lemma cannot be translated: " + e, Status: "detached"})
+		}
+		for _, o := range vc.obls {
+			jobs = append(jobs, job{vc, o})
+		}
+	}
 	DischargeAll(cfg, jobs)
 
 	nObl, nDis := 0, 0
